@@ -158,6 +158,10 @@ pub fn size_family(n: usize) -> Vec<(Kind, usize, usize, Program)> {
 pub fn extra_programs() -> Vec<Program> {
     [
         "Xnn Kd",
+        "Xnn",
+        "Xnn Ko",
+        "C Xnc Ko",
+        "C Xcn Ko R[Xnn Xnc Ko]",
         "C Xnc Kd Xcn Ko",
         "C Xnn R[Xnn Kd]",
         "C C C C C Kd Kb",
